@@ -40,6 +40,9 @@ CLAIMED = {
  "C13": ("corr-sched", "Lean 4 invariant proofs over all runs of the scheduler transition system (induction over actions) + reply-by-reply correspondence with the real scheduler under a controlled event loop",
          'Theorems: each malformed reply (non-integer, not later, missing for time-based, early output time) aborts with an error naming the simulator in whatever state it arrives; after the abort no action is enabled; the rejected reply changes no control state; conversely a bad-reply error has exactly one of these causes (step_err).',
          'Hypotheses WFCfg on the configuration (closure of the triggering-ancestor table, trigger delays >= input delays, shapes) are evaluated by the driver on every generated scenario (Cfg.wfB, proved sound: wfB_sound); scenarios with re-entrant paths (finding D7) are outside. Non-real-time mode. Simulators always answer. Trusted: Lean kernel, correspondence harness (controlled asyncio loop, scripted simulators), asyncio/heapq/dict as modelled.'),
+ "C06": ("corr-pure", "Lean 4 theorems on the sum of delays along a path (the quantity the cycle check tests for zero) + correspondence of ensure_no_dataflow_cycles / cache_triggering_ancestors with the model for several worklist orders + graph-level specification monitor on the implementation",
+         "Theorems for paths of any length and groups of any depth: a time-shifted connection or a weak connection whose cycle stays inside its group makes the sum non-zero, leaving the group erases the weak step, plain cycles sum to zero, the reported cycle has an all-zero stored delay, acceptance iff no zero self-delay. PARTIAL: that the worklist reaches the minimal delay for every pop order, terminates, and stores real paths is not a theorem; it is decided by the correspondence (3 pop orders on the model side, Python's set order on the code side) and by an independent simple-cycle specification evaluated on the implementation for every generated multigraph.",
+         "Known finding D7 (paths leaving and re-entering a group: AssertionError). Trusted: Lean kernel, correspondence harness. Partial as stated."),
 }
 
 NOT_YET = {
